@@ -93,7 +93,7 @@ func runHarness(w *World, verif, tier string, seed int, h harnessSpec) boundedRe
 
 const managerBound = "the real loadTasks against an in-memory PostgreSQL stand-in (pgproto3 over net.Pipe): two integration names each absent / enabled / disabled in the file and in the database (81 mixes) x 4 source-reference sets (one source with start and stop, two sources incl. one defined in both file and database, an unknown source, a known plus an unknown source): exactly one task per enabled integration (file wins on a clash) and referenced source, with the source's chain id, batch size and concurrency (file wins) and the reference's start/stop; an unknown source is an error; plus a second family: a file decoded from text and four database rows that differ from one another (source, range incl. stop == start and stop < start, event, missing enabled key) in 7 subsets/orders, sources setting only batch size or only concurrency: every task has its own integration's source, range, settings and topic filter (independently known Keccak-256 of the declared signature)"
 
-const confdecBound = "the documented configuration keys decoded the way cmd/shovel and config.Integrations do: 18 dashboard switch/password combinations, 5 start spellings x 8 stop spellings of a source reference (number, quoted, $ENV, absent; stop == start, stop < start, 2^64-1) next to a fully specified source and a second integration, file document and database row, 4 batch-size/concurrency combinations: every value arrives in its own field"
+const confdecBound = "the documented configuration keys decoded the way cmd/shovel and config.Integrations do: 54 dashboard switch/password combinations (passwords containing $ inside are literal), 5 start spellings x 8 stop spellings of a source reference (number, quoted, $ENV, absent; stop == start, stop < start, 2^64-1) next to a fully specified source and a second integration, file document and database row, 4 batch-size/concurrency combinations: every value arrives in its own field"
 
 func confdecCheck(w *World, tier string, seed int, verif string) []boundedResult {
 	return []boundedResult{runHarness(w, verif, tier, seed, harnessSpec{
@@ -132,7 +132,7 @@ func init() {
 	boundedChecks["C14"] = append(boundedChecks["C14"], func(w *World, tier string, seed int, verif string) []boundedResult {
 		return []boundedResult{runHarness(w, verif, tier, seed, harnessSpec{
 			name: "plan-all-pairs", pkg: "dig", pkgName: "dig", dir: "plan", files: []string{"plan_bounded_test.go"}, run: "TestVerifPlanBounded",
-			bound: "every field name of the row builder (read from the source) alone and in every ordered pair, in tx, log and trace indexing mode, through the real dig.New -> Filter (glf plan) -> jrpc2.Client.Get -> Integration.Insert against a scripted JSON-RPC node with all fields distinct and non-zero; each stored column compared with the node's value; plus 30 ordered pairs of data plans on one shared client; plus 6 data plans x batches of 3 blocks in which the first, the middle, the last, the first two or all blocks have no transactions (an error is accepted for the trace plan: the client rejects an empty trace_block answer); thorough tier: plus 1200 seeded random sets of 3..8 fields",
+			bound: "every field name of the row builder (read from the source) alone and in every ordered pair, in tx, log and trace indexing mode, through the real dig.New -> Filter (glf plan) -> jrpc2.Client.Get -> Integration.Insert against a scripted JSON-RPC node with all fields distinct and non-zero; each stored column compared with the node's value; plus 30 ordered pairs of data plans on one shared client; plus 6 data plans x batches of 3 blocks in which the first, the middle, the last, the first two or all blocks have no transactions (an error is accepted for the trace plan: the client rejects an empty trace_block answer); plus batches whose blocks have different numbers of transactions (2,1 / 1,2 / 2,1,2; trace data differ from block to block); thorough tier: plus 1200 seeded random sets of 3..8 fields",
 		}), runHarness(w, verif, tier, seed, harnessSpec{
 			name: "glf-difference-any", pkg: "shovel/glf", pkgName: "glf", dir: "glf", files: []string{"glf_bounded_test.go"}, run: "TestVerifGLFBounded",
 			bound: "real glf.difference and glf.any vs set semantics for all slices of length <= 3 over a 3-letter alphabet (40 slices; difference with two 'others' arguments, the second from the first 14 slices)",
@@ -141,7 +141,7 @@ func init() {
 	boundedChecks["C16"] = append(boundedChecks["C16"], func(w *World, tier string, seed int, verif string) []boundedResult {
 		return []boundedResult{runHarness(w, verif, tier, seed, harnessSpec{
 			name: "schema-fits-rows", pkg: "shovel/config", pkgName: "config", dir: "schema", files: []string{"schema_bounded_test.go"}, run: "TestVerifSchemaBounded",
-			bound: "6 integration shapes (flat log selecting data / an indexed input, uint256[] data, tuple[] with columns inside the components, tx fields, trace fields) x 5 variants (column order, user-supplied identity columns, extra column), every ordered pair sharing one table and on separate tables, through the real ValidateFix + DDL + Migrate (fresh and pre-existing narrower table, in-memory catalogue) + dig.New + Integration.Insert on hand-built blocks (2 blocks x 2 txs x 2 logs / 2 trace actions, identical payloads): written columns exist, unique-key columns exist, rows pairwise distinct on the key, re-insert yields the same keys; 5 configurations that must be rejected",
+			bound: "6 integration shapes (flat log selecting data / an indexed input, uint256[] data, tuple[] with columns inside the components, tx fields, trace fields) x 5 variants (column order, user-supplied identity columns, extra column), every ordered pair sharing one table and on separate tables, through the real ValidateFix + DDL + Migrate (fresh and pre-existing narrower table, in-memory catalogue) + dig.New + Integration.Insert on hand-built blocks (2 blocks x 2 txs x 2 logs / 2 trace actions, identical payloads): written columns exist, unique-key columns exist, rows pairwise distinct on the key, re-insert yields the same keys; pairs with the same number of columns but different names on one table; a column named like each of the 77 reserved key words of PostgreSQL, lower and upper case (the stand-in database refuses an unquoted one); 5 configurations that must be rejected",
 		}), runHarness(w, verif, tier, seed, harnessSpec{
 			name: "selected-vs-spec", pkg: "dig", pkgName: "dig", dir: "sel", files: []string{"sel_bounded_test.go"}, run: "TestVerifSelectedBounded",
 			bound: "real Input.Selected / Event.Selected vs an independent specification for all input trees of depth <= 2 with <= 2 components per node, every selection/indexed pattern (second component thinned to a third at the top level), and a thinned set of two-input events",
@@ -211,8 +211,9 @@ func init() {
 		})}
 	})
 	// a fault at the source must fail the step, not lose or misplace rows (C01), and
-	// must not put one item's data under another item (C11)
-	for _, pid := range []string{"C01", "C11"} {
+	// must not put one item's data under another item (C11); the hash recorded with a
+	// position is the hash of the fork the rows came from (C03)
+	for _, pid := range []string{"C01", "C11", "C03"} {
 		pid := pid
 		boundedChecks[pid] = append(boundedChecks[pid], func(w *World, tier string, seed int, verif string) []boundedResult {
 			return []boundedResult{runHarness(w, verif, tier, seed, harnessSpec{
@@ -222,7 +223,7 @@ func init() {
 		})
 	}
 	// integrations with different log filters sharing the cached blocks of one client
-	for _, pid := range []string{"C08", "C04", "C12"} {
+	for _, pid := range []string{"C08", "C04", "C12", "C13", "C01", "C07"} {
 		pid := pid
 		boundedChecks[pid] = append(boundedChecks[pid], func(w *World, tier string, seed int, verif string) []boundedResult {
 			return []boundedResult{runHarness(w, verif, tier, seed, harnessSpec{
